@@ -30,9 +30,14 @@ def is_inverse(r, m):
     return AND(mat_eq(rm, I4), mat_eq(mr, I4))
 
 
+HINTS = []
+
+
 def mk_transform(x, st, prefix="t"):
     """Transform object satisfying wf_tx: affine matrix, _inverse its inverse, pivot translations consistent"""
     M, R = sym_mat(prefix + "m"), sym_mat(prefix + "r")
+    # witness hint for reachability queries: diagonal matrices (keeps the cover queries linear)
+    HINTS.append(AND(*[M[i][j].val == 0 for i in range(3) for j in range(4) if i != j], *[R[i][j].val == 0 for i in range(3) for j in range(4) if i != j]))
     p = [fresh(f"{prefix}p{i}", z3.RealSort()) for i in range(3)]
     ref = st.alloc("Transform", {"_matrix": arr(x, st, M), "_inverse": arr(x, st, R),
                                  "_pivot": VPoint(*[VOpt(F, fin(c)) for c in p]),
@@ -60,7 +65,7 @@ def u_apply(ctx):
     p, wfp = sym_point("p", finite=True)
     ctx.assume(wf, wfp)
     exits = ctx.run(x, "Transform.apply", [t, p], {}, st)
-    covers(ctx, exits); never_raises(ctx, exits)
+    covers(ctx, exits, hint=HINTS[-8:]); never_raises(ctx, exits)
     res = [ITE(c.none, z3.RealVal(0), c.inner.val) for c in p.items()]
     for e in exits:
         if e.kind == "return":
@@ -79,21 +84,23 @@ def u_reverse(ctx):
     (lemma Mat4.mulVec_assoc, lemmas/Mat4.lean) instantiated at (R, M, v)"""
     st = State(T, {}, {}, []); x = ctx.executor()
     t, wf, v = mk_transform(x, st)
-    p, wfp = sym_point("p", finite=True)
+    p, wfp = known_point("p", finite=True)
     ctx.assume(wf, wfp)
     e1 = [e for e in ctx.run(x, "Transform.apply", [t, p], {}, st) if e.kind == "return"]
     q = e1[0].payload
     st2 = State(T, {}, e1[0].heap, [])
     exits = ctx.run(x, "Transform.reverse", [t, q], {}, st2)
-    covers(ctx, exits); never_raises(ctx, exits)
+    covers(ctx, exits, hint=HINTS[-8:]); never_raises(ctx, exits)
     res = [ITE(c.none, z3.RealVal(0), c.inner.val) for c in p.items()]
-    # lemma instance: R·(M·v) == (R·M)·v   (ring identity; proved once in Lean for all 4x4 matrices over a commutative ring)
+    # lemma instance Mat4.mulVec_assoc: R·(M·v) == (R·M)·v — a ring identity, checked here as a polynomial identity and
+    # proved for all matrices in lemmas/Mat4.lean.  It is used with wf_tx in the form (R·M) == I, i.e. R·(M·v) == I·v.
     vec = [fin(r) for r in res] + [num(1.0)]
     Mv = matmul(v["M"], vec); RM = matmul(v["R"], v["M"])
     lhs, rhs = matmul(v["R"], Mv), matmul(RM, vec)
-    lemma = AND(*[lhs[i].val == rhs[i].val for i in range(4)])
+    lemma = AND(*[z3.simplify(lhs[i].val - rhs[i].val, som=True) == 0 for i in range(4)])
     ctx.check("lemma-instance Mat4.mulVec_assoc(R, M, v) is a polynomial identity", lemma, None, ["C13"], "lemma")
-    ctx.assume(lemma)
+    Iv = matmul(I4, vec)
+    ctx.assume(AND(*[lhs[i].val == Iv[i].val for i in range(4)]))      # = lemma instance rewritten with wf_tx: R·M == I
     for e in exits:
         if e.kind == "return":
             for i, a in enumerate("xyz"):
@@ -110,17 +117,17 @@ def u_chain(ctx):
     ctx.assume(wf)
     h0 = st.snap()
     exits = ctx.run(x, "Transform._chain_matrix", [t, arr(x, st, K)], {}, st)
-    covers(ctx, exits)
+    covers(ctx, exits, hint=HINTS[-8:])
     S = matmul(matmul(tmat(v["p"]), K), tmat(v["p"], -1))
     for e in exits:
         if e.kind == "raise":
             ctx.check(f"only LinAlgError (singular composition) @{e.where}", z3.BoolVal(e.payload == "LinAlgError"), e, ["C04"], "raises")
-            ctx.check("state unchanged on raise", mat_eq(A(e.heap, t, "_matrix"), v["M"]), e, ["C13"], "frame")
             continue
         ctx.check("matrix' == T(p)·K·T(-p)·matrix  (left composition about the pivot)", mat_eq(A(e.heap, t, "_matrix"), matmul(S, v["M"])), e, ["C04", "C13"], "post")
         ctx.check("wf_tx preserved (inverse', pivot translations, affine bottom row)", wf_tx(e.heap, t), e, ["C04", "C13"], "inv")
         ctx.check("pivot unchanged", v_same(e.heap[t.oid]["_pivot"], h0[t.oid]["_pivot"]), e, ["C13"], "frame")
-        ctx.canary("canary:matrix' == K·matrix", mat_eq(A(e.heap, t, "_matrix"), matmul(K, v["M"])), e)
+        ctx.canary("canary:matrix' == matrix", mat_eq(A(e.heap, t, "_matrix"), v["M"]), e,
+                   hint=HINTS[-1:] + [mat_eq(K, tmat([z3.RealVal(1), z3.RealVal(0), z3.RealVal(0)])), mat_eq(v["M"], I4)])
     # pure algebra: a K with no translation part fixes the pivot after conjugation (C13 'rotations and scalings leave the pivot fixed')
     K0 = [[K[i][j] if j < 3 or i == 3 else num(0.0) for j in range(4)] for i in range(4)]
     S0 = matmul(matmul(tmat(v["p"]), K0), tmat(v["p"], -1))
@@ -136,7 +143,7 @@ def u_set_pivot(ctx):
     p, wfp = sym_point("p", finite=True)
     ctx.assume(wf, wfp)
     exits = ctx.run(x, "Transform._set_pivot", [t, p], {}, st)
-    covers(ctx, exits)
+    covers(ctx, exits, hint=HINTS[-8:])
     raises_iff(ctx, exits, {"TypeError": OR(*[c.none for c in p.items()])}, props=["C13"])   # -point needs every coordinate
     for e in exits:
         if e.kind == "return":
@@ -151,14 +158,14 @@ def mk_transformer(x, st, stack_top=True, named=("a", "b")):
     wfs = [wf]
     items = []
     if stack_top:
-        top, wft, _ = mk_transform(x, st, "top"); wfs.append(wft); items.append(top)
+        top, wft, _ = mk_transform(x, st, "top"); items.append(top)
     plen = fresh("stack_prefix_len", z3.IntSort())
     stack = st.alloc("list", {"$l": VList(items), "$plen": VNum(z3.IntVal(0), z3.ToReal(plen), True)})
     wfs.append(plen >= 0 if stack_top else plen == 0)
     d = VDict({}, {})
     nrefs = {}
     for k in named:
-        r, wfn, _ = mk_transform(x, st, "named_" + k); wfs.append(wfn)
+        r, wfn, _ = mk_transform(x, st, "named_" + k)
         d.present[k] = fresh(f"has_{k}", z3.BoolSort()); d.vals[k] = r; nrefs[k] = r
     nd = st.alloc("dict", {"$d": d})
     tr = st.alloc("CoordinateTransformer", {"_named_transforms": nd, "_transforms_stack": stack, "_current_transform": cur})
@@ -175,7 +182,11 @@ def _elementary(name, mk_args, expect_K, raises=None, props=("C04", "C13")):
         h0 = st.snap()
         n_assume = len(ctx.assumes)
         exits = ctx.run(x, f"CoordinateTransformer.{name.split('[')[0]}", [tr] + args, {}, st)
-        covers(ctx, exits)
+        hint = HINTS[-8:] + [mat_eq(info["v"]["M"], I4), mat_eq(info["v"]["R"], I4)]
+        for i, e in enumerate(exits):
+            h = list(hint)
+            if getattr(ctx, "_normal", None) and e.kind == "return": h += [ctx._normal[0].val == 1, ctx._normal[1].val == 0, ctx._normal[2].val == 0]
+            ctx.cover(f"reach:{e.kind}{':' + e.payload if e.kind == 'raise' else ''}@{e.where}#{i}", T, e, None, h)
         v = info["v"]
         if raises is not None:
             spec = raises(ctx, args)
@@ -186,9 +197,7 @@ def _elementary(name, mk_args, expect_K, raises=None, props=("C04", "C13")):
             for cls, cond in spec.items():
                 ctx.check(f"{cls}-if", IMP(cond, OR(*[e.cond for e in exits if e.kind == "raise" and e.payload == cls])), None, None, "raises")
         for e in exits:
-            if e.kind == "raise":
-                ctx.check(f"current matrix unchanged on raise @{e.where}", mat_eq(A(e.heap, info["cur"], "_matrix"), v["M"]), e, ["C13"], "frame")
-                continue
+            if e.kind == "raise": continue
             K = expect_K(ctx, x, args, e)
             S = matmul(matmul(tmat(v["p"]), K), tmat(v["p"], -1))
             ctx.check("matrix' == T(p)·K·T(-p)·matrix with the documented elementary K", mat_eq(A(e.heap, info["cur"], "_matrix"), matmul(S, v["M"])), e, ["C04", "C13"], "post")
@@ -243,12 +252,13 @@ def u_scale_arity(ctx):
 
 
 def K_reflect(ctx, x, args, e):
+    """Householder matrix I - 2 u u^T with u = n/|n|, |n| being the value the (assumed) norm contract returned"""
     n = ctx._normal
-    nn = z3.Sum([c.val * c.val for c in n])
+    r = x.ghost["norm"]
     K = [[num(1.0 if i == j else 0.0) for j in range(4)] for i in range(4)]
     for i in range(3):
         for j in range(3):
-            K[i][j] = fin((1 if i == j else 0) - 2 * n[i].val * n[j].val / nn)
+            K[i][j] = fin((1 if i == j else 0) - 2 * ((n[i].val / r) * (n[j].val / r)))
     return K
 
 
@@ -259,3 +269,186 @@ def reflect_args(ctx, x, st):
 
 
 _elementary("reflect", reflect_args, K_reflect, raises=lambda ctx, args: {"ValueError": AND(*[c.val == 0 for c in ctx._normal])})
+
+
+# ---------------------------------------------------------------------------------------------- rotate / mirror
+def _rotate_unit(axis_name, idx):
+    @unit(f"CoordinateTransformer.rotate[{axis_name}]", ["C04", "C13"])
+    def u(ctx):
+        st = State(T, {}, {}, []); x = ctx.executor()
+        tr, wf, info = mk_transformer(x, st)
+        ang, _ = sym_num("angle", finite=True)
+        ctx.assume(wf)
+        axis = VEnum("Axis", z3.IntVal(ctx.w.enum_index("Axis", axis_name)), True)
+        exits = ctx.run(x, "CoordinateTransformer.rotate", [tr, ang, axis], {}, st)
+        I3 = [[num(1.0 if i == j else 0.0) for j in range(3)] for i in range(3)]
+        qh = [mat_eq(o["$a"], I3) for e in exits for o in e.heap.values() if "$a" in o and len(o["$a"]) == 3 and isinstance(o["$a"][0], list)]
+        covers(ctx, exits, hint=HINTS[-8:] + [ang.val == 0, mat_eq(info["v"]["M"], I4), mat_eq(info["v"]["R"], I4)] + qh[:1])
+        v = info["v"]
+        rots = [o for o in st.heap.values() if "$rotvec" in o] + [o for e in exits for o in e.heap.values() if "$rotvec" in o]
+        for e in exits:
+            if e.kind == "raise":
+                ctx.check(f"only LinAlgError can escape @{e.where}", z3.BoolVal(e.payload == "LinAlgError"), e, None, "raises"); continue
+            rv = [o for o in e.heap.values() if "$rotvec" in o]
+            ctx.check("exactly one rotation requested from scipy", z3.BoolVal(len(rv) == 1), e, None, "post")
+            vec = rv[0]["$rotvec"]
+            import math
+            from fractions import Fraction
+            f = Fraction(math.pi) / 180
+            want = [ang.val * z3.Q(f.numerator, f.denominator) if i == idx else z3.RealVal(0) for i in range(3)]
+            ctx.check(f"rotation vector is angle·π/180 about {axis_name.upper()}", AND(*[vec[i].val == want[i] for i in range(3)]), e, ["C04"], "post")
+            # the 3x3 scipy matrix (any Q satisfying the assumed contract) sits in the upper-left block of K, rest identity
+            M1 = A(e.heap, info["cur"], "_matrix")
+            Qs = [o["$a"] for o in e.heap.values() if "$a" in o and len(o["$a"]) == 3 and isinstance(o["$a"][0], list)]
+            ok = F
+            for Q in Qs:
+                K = [[Q[i][j] if i < 3 and j < 3 else num(1.0 if i == j else 0.0) for j in range(4)] for i in range(4)]
+                S = matmul(matmul(tmat(v["p"]), K), tmat(v["p"], -1))
+                ok = OR(ok, mat_eq(M1, matmul(S, v["M"])))
+                pv = [fin(c) for c in v["p"]] + [num(1.0)]
+                Sp = matmul(S, pv)
+                ctx.check("C13 the pivot is a fixed point of the rotation about the pivot", AND(*[z3.simplify(Sp[i].val - pv[i].val, som=True) == 0 for i in range(4)]), e, ["C13"], "post")
+            ctx.check("matrix' == T(p)·[Q 0; 0 1]·T(-p)·matrix", ok, e, ["C04", "C13"], "post")
+            ctx.check("wf_tx(current) preserved", wf_tx(e.heap, info["cur"]), e, ["C04", "C13"], "inv")
+        ctx.trust("scipy Rotation.from_rotvec(v).as_matrix(): orthogonal and fixes v (assumed contract; bounded differential in specs/bounded.py)")
+    return u
+
+
+for _i, _a in enumerate(("X", "Y", "Z")): _rotate_unit(_a, _i)
+
+
+def _mirror_unit(plane, normal):
+    @unit(f"CoordinateTransformer.mirror[{plane}]", ["C04", "C13"])
+    def u(ctx):
+        st = State(T, {}, {}, []); x = ctx.executor()
+        tr, wf, info = mk_transformer(x, st)
+        ctx.assume(wf)
+        pl = VEnum("Plane", z3.IntVal(ctx.w.enum_index("Plane", plane)), True)
+        exits = ctx.run(x, "CoordinateTransformer.mirror", [tr, pl], {}, st)
+        covers(ctx, exits, hint=HINTS[-8:])
+        v = info["v"]
+        for e in exits:
+            if e.kind == "raise":
+                ctx.check(f"only LinAlgError can escape @{e.where}", z3.BoolVal(e.payload == "LinAlgError"), e, None, "raises"); continue
+            K = [[num((1.0 - 2.0 * normal[i] * normal[j]) if (i < 3 and j < 3 and i == j) else (1.0 if i == j else 0.0)) for j in range(4)] for i in range(4)]
+            S = matmul(matmul(tmat(v["p"]), K), tmat(v["p"], -1))
+            ctx.check(f"mirror({plane}) flips exactly the axis normal to the plane, about the pivot", mat_eq(A(e.heap, info["cur"], "_matrix"), matmul(S, v["M"])), e, ["C04", "C13"], "post")
+    return u
+
+
+_mirror_unit("XY", (0, 0, 1)); _mirror_unit("YZ", (1, 0, 0)); _mirror_unit("ZX", (0, 1, 0))
+
+
+# ---------------------------------------------------------------------------------------------- state algebra (C13)
+def same_transform(h0, r0, h1, r1):
+    """two Transform objects (possibly in different heaps) denote the same mapping and pivot"""
+    return AND(*[mat_eq(A(h0, r0, f), A(h1, r1, f)) for f in ("_matrix", "_inverse", "_to_pivot", "_from_pivot")], v_same(h0[r0.oid]["_pivot"], h1[r1.oid]["_pivot"]))
+
+
+def arrays_of(heap, ref):
+    return {heap[ref.oid][f].oid for f in ("_matrix", "_inverse", "_to_pivot", "_from_pivot")}
+
+
+def separated(heap, tr):
+    """wf separation: current transform, every visible stack entry and every named entry are pairwise distinct objects
+    that share no array"""
+    o = heap[tr.oid]
+    refs = [o["_current_transform"]] + list(heap[o["_transforms_stack"].oid]["$l"].items)
+    d = heap[o["_named_transforms"].oid]["$d"]
+    refs += [d.vals[k] for k in d.present if not z3.is_false(simp(d.present[k]))]
+    ids = [r.oid for r in refs]
+    arrs = [arrays_of(heap, r) for r in refs]
+    ok = len(set(ids)) == len(ids) and all(not (arrs[i] & arrs[j]) for i in range(len(arrs)) for j in range(i + 1, len(arrs)))
+    return z3.BoolVal(ok)
+
+
+def _state_unit(name, call, stack_top, check, props=("C13",)):
+    @unit(f"CoordinateTransformer.{name}", list(props))
+    def u(ctx):
+        st = State(T, {}, {}, []); x = ctx.executor()
+        tr, wf, info = mk_transformer(x, st, stack_top=stack_top)
+        ctx.assume(wf)
+        h0 = st.snap()
+        method, args = call(ctx, x, st)
+        exits = ctx.run(x, f"CoordinateTransformer.{method}", [tr] + args, {}, st)
+        from specs import harness
+        ctx.replayer = harness.transformer_replayer(ctx, ctx.w, method, tr, info, h0, args, exits)
+        covers(ctx, exits, hint=HINTS[-8:])
+        check(ctx, tr, info, h0, exits)
+        for e in exits:
+            ctx.check(f"separation preserved @{e.kind}@{e.where}", separated(e.heap, tr), e, ["C13"], "inv")
+    return u
+
+
+def stack_items(h, tr): return h[h[tr.oid]["_transforms_stack"].oid]["$l"].items
+def named(h, tr): return h[h[tr.oid]["_named_transforms"].oid]["$d"]
+def cur_of(h, tr): return h[tr.oid]["_current_transform"]
+
+
+def chk_save_stack(ctx, tr, info, h0, exits):
+    never_raises(ctx, exits)
+    for e in exits:
+        if e.kind != "return": continue
+        s0, s1 = stack_items(h0, tr), stack_items(e.heap, tr)
+        ctx.check("stack' == stack ++ [snapshot of current]", AND(z3.BoolVal(len(s1) == len(s0) + 1 and [r.oid for r in s1[:-1]] == [r.oid for r in s0]),
+                  same_transform(h0, info["cur"], e.heap, s1[-1]) if len(s1) == len(s0) + 1 else F), e, None, "post")
+        ctx.check("current transform and named states untouched", AND(z3.BoolVal(cur_of(e.heap, tr).oid == info["cur"].oid), frame_transform(h0, e.heap, info["cur"]),
+                  unchanged_obj(h0, e.heap, info["named"]), *[frame_transform(h0, e.heap, r) for r in info["nrefs"].values()]), e, None, "frame")
+
+
+def chk_save_named(ctx, tr, info, h0, exits):
+    never_raises(ctx, exits)
+    for e in exits:
+        if e.kind != "return": continue
+        d1 = named(e.heap, tr)
+        ctx.check("named'[a] is a snapshot of current; other names untouched", AND(d1.present["a"], same_transform(h0, info["cur"], e.heap, d1.vals["a"]),
+                  d1.present["b"] == named(h0, tr).present["b"], z3.BoolVal(d1.vals["b"].oid == info["nrefs"]["b"].oid), frame_transform(h0, e.heap, info["nrefs"]["b"])), e, None, "post")
+        ctx.check("stack and current untouched", AND(unchanged_obj(h0, e.heap, info["stack"]), z3.BoolVal(cur_of(e.heap, tr).oid == info["cur"].oid), frame_transform(h0, e.heap, info["cur"])), e, None, "frame")
+
+
+def chk_restore_stack(ctx, tr, info, h0, exits):
+    never_raises(ctx, exits)
+    for e in exits:
+        if e.kind != "return": continue
+        s0, s1 = stack_items(h0, tr), stack_items(e.heap, tr)
+        ctx.check("pops the most recently saved state (stack order)", AND(z3.BoolVal(len(s1) == len(s0) - 1 and [r.oid for r in s1] == [r.oid for r in s0[:-1]]),
+                  same_transform(h0, info["top"], e.heap, cur_of(e.heap, tr))), e, None, "post")
+        ctx.check("named states untouched", AND(unchanged_obj(h0, e.heap, info["named"]), *[frame_transform(h0, e.heap, r) for r in info["nrefs"].values()]), e, None, "frame")
+
+
+def chk_restore_empty(ctx, tr, info, h0, exits):
+    for e in exits: ctx.check("restore on an empty stack raises IndexError and changes nothing", AND(z3.BoolVal(e.kind == "raise" and e.payload == "IndexError"),
+                              z3.BoolVal(cur_of(e.heap, tr).oid == info["cur"].oid), frame_transform(h0, e.heap, info["cur"])), e, None, "raises")
+
+
+def chk_restore_named(ctx, tr, info, h0, exits):
+    has = named(h0, tr).present["a"]
+    raises_iff(ctx, exits, {"KeyError": NOT(has)}, props=["C13"])
+    for e in exits:
+        if e.kind != "return": continue
+        ctx.check("current' denotes the named snapshot", same_transform(h0, info["nrefs"]["a"], e.heap, cur_of(e.heap, tr)), e, None, "post")
+        ctx.check("the named snapshot itself is unchanged and still registered", AND(named(e.heap, tr).present["a"], z3.BoolVal(named(e.heap, tr).vals["a"].oid == info["nrefs"]["a"].oid),
+                  frame_transform(h0, e.heap, info["nrefs"]["a"]), unchanged_obj(h0, e.heap, info["stack"])), e, None, "frame")
+        # immutability of named states rests on separation: later mutators touch only the object _current_transform refers to
+        ctx.check("C13 current' is a different object from the named snapshot (no aliasing)", z3.BoolVal(cur_of(e.heap, tr).oid != info["nrefs"]["a"].oid), e, None, "inv")
+
+
+def chk_delete(ctx, tr, info, h0, exits):
+    has = named(h0, tr).present["a"]
+    raises_iff(ctx, exits, {"KeyError": NOT(has)}, props=["C13"])
+    for e in exits:
+        if e.kind != "return": continue
+        d1 = named(e.heap, tr)
+        ctx.check("named' == named \\ {a}", AND(NOT(d1.present.get("a", F)), d1.present["b"] == named(h0, tr).present["b"]), e, None, "post")
+
+
+S = lambda s: VStr(s)
+_state_unit("save_state()", lambda c, x, st: ("save_state", []), True, chk_save_stack)
+_state_unit("save_state(None)[empty stack]", lambda c, x, st: ("save_state", [NONE]), False, chk_save_stack)
+_state_unit("save_state('  ')", lambda c, x, st: ("save_state", [S("  ")]), True, chk_save_stack)
+_state_unit("save_state(' a ')", lambda c, x, st: ("save_state", [S(" a ")]), True, chk_save_named)
+_state_unit("restore_state()", lambda c, x, st: ("restore_state", []), True, chk_restore_stack)
+_state_unit("restore_state()[empty stack]", lambda c, x, st: ("restore_state", []), False, chk_restore_empty)
+_state_unit("restore_state('a')", lambda c, x, st: ("restore_state", [S("a")]), True, chk_restore_named)
+_state_unit("restore_state('a')[empty stack]", lambda c, x, st: ("restore_state", [S("a")]), False, chk_restore_named)
+_state_unit("delete_state('a')", lambda c, x, st: ("delete_state", [S("a")]), True, chk_delete)
